@@ -329,8 +329,9 @@ func c04(c *Ctx) {
 	c.Check(nR1 >= 6, "reader-outside-request-loop", "reader constructions found", "-", fmt.Sprint(nR1), fmt.Sprintf("expected at least 6 buffered-reader constructions over handler connections, found %d", nR1))
 	c04DatagramBuffers(c)
 	c04PendingInput(c)
-	c04ReporterQueues(c)
+	c04ReporterQueues(c, 3, "services/smtp", "services/ftp")
 	c04BodyConsumed(c)
+	c04PerMessageState(c)
 	// a transfer that spans several datagrams is collected per peer (shared with C03): keyed by less than the peer's address,
 	// two clients' datagrams are decoded and reported as one transfer
 	c03PeerKeys(c)
